@@ -132,10 +132,13 @@ func parseAddressList(addresses string) string {
 		if strings.Contains(addr, "<") && strings.Contains(addr, ">") {
 			start := strings.Index(addr, "<")
 			end := strings.Index(addr, ">")
-			name = strings.TrimSpace(addr[:start])
-			email = addr[start+1 : end]
-			// Remove quotes from name if present
-			name = strings.Trim(name, "\"")
+			// Only a "<" that precedes the ">" delimits an address ("a > b <c" must not be sliced backwards)
+			if start < end {
+				name = strings.TrimSpace(addr[:start])
+				email = addr[start+1 : end]
+				// Remove quotes from name if present
+				name = strings.Trim(name, "\"")
+			}
 		}
 
 		// Parse email into mailbox@host
